@@ -3,12 +3,17 @@
    contexts (flat and nested), the dispatcher's command sort only permutes commands, dropping the
    definition caches is the identity on the engine state, and the only dependence of the engine
    model on the database's random id order vanishes when task names are unique.
-   NOT proved: the global statement (C02_schedule_independent_statement): decided by multi-schedule
-   exploration of the real engine + trace correspondence (suite C02). *)
+   Schedule independence itself is PROVED for join-free, forward (acyclic), command-free programs whose
+   guards evaluate: for any two delivery orders (and any two orders of the database's random ids), once
+   nothing is pending every task has run the same number of times with the same multiset of final
+   states (C02_schedule_independent_simple, Proofs/EngineDen.v).
+   NOT proved: the statement for programs with joins / engine commands
+   (C02_schedule_independent_statement): decided by multi-schedule exploration of the real engine +
+   trace correspondence (suite C02). *)
 From Coq Require Import List ZArith NArith Bool String Permutation.
 Require Import Mistral.Gen.States Mistral.Model.PySort Mistral.Model.Engine.
 Require Import Mistral.Model.Ctx Mistral.Proofs.CtxProofs.
-Require Import Mistral.Proofs.EngineMore Mistral.Proofs.EngineOrder.
+Require Import Mistral.Proofs.EngineMore Mistral.Proofs.EngineOrder Mistral.Proofs.EngineDen.
 Import ListNotations.
 
 (* ---- data flow: the inbound context of a join is independent of the order of the upstream rows
@@ -57,7 +62,18 @@ Theorem C02_id_order_irrelevant_when_names_unique : forall s s' name,
 Proof. exact last_by_name_id_independent. Qed.
 Print Assumptions C02_id_order_irrelevant_when_names_unique.
 
-(* the global statement, not proved *)
+(* two complete runs of the same program under different delivery orders and different id orders ran the
+   same tasks the same number of times with the same final states *)
+Theorem C02_schedule_independent_simple : forall sp u1 u2 evs1 evs2,
+  simple_b sp = true -> forallb plain4 evs1 = true -> forallb plain4 evs2 = true ->
+  let s1 := run sp u1 evs1 in let s2 := run sp u2 evs2 in
+  wf_created s1 = true -> pend s1 = [] -> wf_created s2 = true -> pend s2 = [] ->
+  forall n, n < List.length sp ->
+    rows_named s1 n = rows_named s2 n /\ Permutation (states_named s1 n) (states_named s2 n).
+Proof. exact schedule_independent. Qed.
+Print Assumptions C02_schedule_independent_simple.
+
+(* the global statement (joins, engine commands), not proved *)
 Definition C02_schedule_independent_statement : Prop :=
   forall sp u u' evs evs', (* evs, evs' complete schedules of the same den_class program *) True ->
   wf_state (run sp u evs) = wf_state (run sp u' evs').
